@@ -35,7 +35,7 @@ func (vc *VC) call(ins ssa.Instruction, c *ssa.CallCommon, v *ssa.Call) {
 	var sig *types.Signature
 	var paramNames []string
 	calleePkg := ""
-	var staticFn *ssa.Function
+	var staticFn, cellFn *ssa.Function
 	if c.IsInvoke() {
 		recv := vc.val(c.Value)
 		vc.safe("nil-iface", fmt.Sprintf("(not (= %s 0))", recv.S), pos)
@@ -98,10 +98,24 @@ func (vc *VC) call(ins ssa.Instruction, c *ssa.CallCommon, v *ssa.Call) {
 					}
 				}
 			}
+			if cf := vc.cellCallee(c.Value); cf != nil && key == "" {
+				// a call through a captured variable that holds exactly one func literal
+				cellFn = cf
+				key = funcKey(cf)
+				sig = cf.Signature
+				if cf.Pkg != nil {
+					calleePkg = cf.Pkg.Pkg.Path()
+				}
+				paramNames = nil
+				for _, p := range cf.Params {
+					paramNames = append(paramNames, p.Name())
+				}
+				vc.trusted["closure variables assigned exactly once (a func literal) are assumed assigned before they are called"] = true
+			}
 			if key == "" && vc.dynamicDispatch(c, v, sig, args, pos) {
 				return
 			}
-			if key != "" && vc.eng.specFor(key) == nil {
+			if key != "" && cellFn == nil && vc.eng.specFor(key) == nil {
 				key = ""
 				calleePkg = ""
 			}
@@ -142,8 +156,17 @@ func (vc *VC) call(ins ssa.Instruction, c *ssa.CallCommon, v *ssa.Call) {
 			return
 		}
 	}
+	if spec == nil && cellFn != nil {
+		if vc.inlineCall(cellFn, args, v) {
+			return
+		}
+	}
 	if spec == nil {
-		vc.defaultEffect(c, key, calleePkg, staticFn)
+		dfn := staticFn
+		if dfn == nil {
+			dfn = cellFn
+		}
+		vc.defaultEffect(c, key, calleePkg, dfn)
 		nt := vc.havocComp("top", "Int")
 		vc.assume(fmt.Sprintf("(>= %s %s)", nt, oldTop))
 		res := vc.bindResults(v, sig, nil)
@@ -155,6 +178,9 @@ func (vc *VC) call(ins ssa.Instruction, c *ssa.CallCommon, v *ssa.Call) {
 		vc.trusted["assumed contract: "+shortKey(spec.Key)] = true
 	}
 	env := &SpecEnv{vc: vc, pkg: vc.eng.TPkgs[spec.Pkg], vars: map[string]Term{}, heap: vc.heap, old: vc.heap}
+	if cellFn != nil || (staticFn != nil && staticFn.Parent() != nil && rootFn(staticFn) == rootFn(vc.fn)) {
+		env.cells = true // callee of the same closure tree: its contract may name the shared captured variables
+	}
 	if env.pkg == nil {
 		if calleePkg != "" {
 			env.pkg = vc.eng.TPkgs[calleePkg]
@@ -288,7 +314,7 @@ func (vc *VC) call(ins ssa.Instruction, c *ssa.CallCommon, v *ssa.Call) {
 		rnames = resultNamesOf(sig, spec)
 	}
 	res := vc.bindResults(v, sig, rnames)
-	post := &SpecEnv{vc: vc, pkg: env.pkg, vars: env.vars, heap: vc.heap, old: preHeap}
+	post := &SpecEnv{vc: vc, pkg: env.pkg, vars: env.vars, heap: vc.heap, old: preHeap, cells: env.cells}
 	for i, r := range res {
 		post.vars[rnames[i]] = r
 		if len(res) == 1 {
@@ -465,6 +491,12 @@ func (vc *VC) havocLvalue(env *SpecEnv, e SpecExpr) error {
 			vc.comp("G|"+n.Name, h.Sort)
 			vc.noteWrite("G|" + n.Name)
 			return nil
+		}
+		if env.cells {
+			if c, ok := vc.cellsNow()[n.Name]; ok {
+				vc.havocPointee(c.addr, c.elem)
+				return nil
+			}
 		}
 		return fmt.Errorf("modifies: %s is not a ghost variable", n.Name)
 	case SSel:
@@ -1101,6 +1133,9 @@ func (vc *VC) frameConds(h Heap, quant bool) []frameCond {
 		switch n := m.Expr.(type) {
 		case SIdent:
 			allowAllComp["G|"+n.Name] = true
+			if c, ok := vc.cellsNow()[n.Name]; ok && !isStruct(c.elem) {
+				allows = append(allows, allow{cellComp(c.elem), c.addr})
+			}
 		case SSel:
 			base, err := env.eval(n.X)
 			if err != nil || base.T == nil {
@@ -1393,6 +1428,24 @@ func (vc *VC) inlineCall(fn *ssa.Function, args []Term, v *ssa.Call) bool {
 	ch.findLocalAllocs()
 	for i, p := range fn.Params {
 		ch.vals[p] = Term{S: args[i].S, Sort: args[i].Sort, T: p.Type()}
+	}
+	if len(fn.FreeVars) > 0 {
+		// a func literal of the same closure tree: its captured variables are the caller's cells of the same name
+		if rootFn(fn) != rootFn(vc.fn) {
+			return false
+		}
+		cur := vc.cellsNow()
+		ch.cells = map[string]cellRef{}
+		for n, c := range cur {
+			ch.cells[n] = c
+		}
+		for _, fv := range fn.FreeVars {
+			c, ok := cur[fv.Name()]
+			if !ok {
+				return false
+			}
+			ch.vals[fv] = Term{S: c.addr, Sort: "Int", T: fv.Type()}
+		}
 	}
 	ch.heap = vc.heap.clone()
 	ch.curBlk, ch.curIdx = 0, -1
